@@ -1,9 +1,18 @@
 """C16 -- Scanners and matchers are total and report only well-formed ranges.
 Thin dispatcher: one library module per half."""
+import c16_css
 import c16_html
 
-HALVES = [c16_html.run_html]
-REPLAYS = [c16_html.replay_html]
+HALVES = [c16_html.run_html, c16_css.run_css]
+
+
+def _css_replay(ctx, obj):
+    if obj.get('replay', {}).get('component') != 'css':
+        return None
+    return c16_css.replay_css(ctx, obj)
+
+
+REPLAYS = [c16_html.replay_html, _css_replay]
 
 
 def run(ctx):
